@@ -133,7 +133,9 @@ fn now_ms() -> u64 {
     START.get_or_init(Instant::now).elapsed().as_millis() as u64 + 1
 }
 
-pub const WATCHDOG_MS: u64 = 10_000;
+/// last resort for a loop inside one poll (never seen so far); longer than the in-run guard with
+/// its confirmation (10 s + 30 s)
+pub const WATCHDOG_MS: u64 = 60_000;
 
 /// watchdog trips that a fresh process could not confirm (stalls of the machine, not of the code)
 pub static FALSE_TRIPS: AtomicU64 = AtomicU64::new(0);
